@@ -8,7 +8,7 @@
 
 Each variant is applied to a scratch copy of /repo's include/ and c-interface/ under $(mktemp -d) (outside
 /repo and /verif), analysed with PGM_REPO pointing at the copy, and removed immediately afterwards.
-usage: run_mutants.py [--only substr] [--props C01,C02] [--jobs N] [--neutral-only|--mutants-only]
+usage: run_mutants.py [--only substr] [--props C01,C02] [--jobs N] [--tier quick|thorough] [--neutral-only|--mutants-only]
 """
 import argparse
 import json
@@ -58,6 +58,7 @@ def main():
     ap.add_argument('--neutral-only', action='store_true')
     ap.add_argument('--mutants-only', action='store_true')
     ap.add_argument('--verbose', action='store_true')
+    ap.add_argument('--tier', default='quick', choices=['quick', 'thorough'])
     a = ap.parse_args()
     claimed = claimed_props()
     exp = json.load(open(os.path.join(VERIF, 'selftest', 'mutants', 'expect.json')))
@@ -94,7 +95,7 @@ def main():
         props = sel or e['props'] or claimed
         if kind == 'seeded' and e.get('expected_miss'):
             props = sel or claimed
-        return j, run_variant(patch, props)
+        return j, run_variant(patch, props, a.tier)
 
     bad = 0
     with ThreadPoolExecutor(max_workers=a.jobs) as ex:
